@@ -67,8 +67,12 @@ pub enum Pending {
     /// nothing is pending, but the sending link HAS credit when the fault comes, and the application's next operation
     /// on it is a send_batchable() whose outcome it then awaits
     IdleWithCredit,
+    /// a send_batchable() is waiting for credit; the peer grants one credit and the fault follows AT THE SAME INSTANT
+    /// (flow and close / end in one burst): the send may get through while the engines are stopping, and its outcome
+    /// must then fail like any other outstanding outcome
+    BatchableGrantedWithFault,
 }
-pub const PENDINGS: [Pending; 12] = [
+pub const PENDINGS: [Pending; 13] = [
     Pending::Idle,
     Pending::SendWaitingCredit,
     Pending::SendAwaitingOutcome,
@@ -81,6 +85,7 @@ pub const PENDINGS: [Pending; 12] = [
     Pending::BatchableOutcomeReceived,
     Pending::BatchableOutcomeResuming,
     Pending::IdleWithCredit,
+    Pending::BatchableGrantedWithFault,
 ];
 
 #[derive(Debug, Clone, Copy, PartialEq, Eq, Hash)]
@@ -144,7 +149,7 @@ fn carries(f: Flt) -> bool {
 fn pending_affected(pd: Pending, f: Flt) -> bool {
     match pd {
         Pending::Idle | Pending::IdleWithCredit => false,
-        Pending::SendWaitingCredit | Pending::SendAwaitingOutcome | Pending::BatchableOutcome | Pending::BatchableOutcomeReceived | Pending::DetachPending => conn_level(f) || sess_level(f) || s_link(f),
+        Pending::SendWaitingCredit | Pending::SendAwaitingOutcome | Pending::BatchableOutcome | Pending::BatchableOutcomeReceived | Pending::DetachPending | Pending::BatchableGrantedWithFault => conn_level(f) || sess_level(f) || s_link(f),
         Pending::RecvWaiting => conn_level(f) || sess_level(f) || r_link(f),
         Pending::AttachPending | Pending::EndPending | Pending::BatchableOutcomeResuming => conn_level(f) || sess_level(f),
         Pending::ClosePending => conn_level(f),
@@ -246,6 +251,16 @@ pub async fn scenario_b(pd: Pending, flt: Flt) -> BObs {
                 (r, Back::S(s))
             }))
         }
+        Pending::BatchableGrantedWithFault => {
+            let mut s = sender_opt.take().unwrap();
+            Some(tokio::spawn(async move {
+                let r = match s.send_batchable("granted together with the fault").await {
+                    Ok(fut) => op(fut).await,
+                    Err(e) => format!("err:{:?}", e),
+                };
+                (r, Back::S(s))
+            }))
+        }
         Pending::BatchableOutcomeResuming => {
             c.peer.grant(0, s_lib_handle, 10);
             settle(&mut c.peer, 1).await;
@@ -329,6 +344,10 @@ pub async fn scenario_b(pd: Pending, flt: Flt) -> BObs {
         }
     }
     obs.pending_was_pending = pending_task.as_ref().map(|t| !t.is_finished()).unwrap_or(false);
+    if pd == Pending::BatchableGrantedWithFault {
+        // one credit, and the fault right behind it in the same burst (no quiescence in between)
+        c.peer.grant(0, s_lib_handle, 1);
+    }
     // ---- the fault
     match flt {
         Flt::PeerClose => c.peer.send(0, Performative::Close(Close { error: None })),
@@ -485,7 +504,7 @@ fn judge_b(pd: Pending, flt: Flt, o: &BObs, panics: &[String]) -> Vec<(String, S
             f.push((format!("op-after-fault-succeeds op={name} fault={:?}", flt), format!("{what}: {name} returned Ok although its {scope_name} had stopped; {}", all())));
         }
     }
-    let data_pending = matches!(pd, Pending::SendWaitingCredit | Pending::SendAwaitingOutcome | Pending::BatchableOutcome | Pending::BatchableOutcomeReceived | Pending::BatchableOutcomeResuming | Pending::RecvWaiting | Pending::AttachPending);
+    let data_pending = matches!(pd, Pending::SendWaitingCredit | Pending::SendAwaitingOutcome | Pending::BatchableOutcome | Pending::BatchableOutcomeReceived | Pending::BatchableOutcomeResuming | Pending::BatchableGrantedWithFault | Pending::RecvWaiting | Pending::AttachPending);
     if data_pending && pending_affected(pd, flt) && o.pending_was_pending && o.pending_result == "ok" {
         f.push((format!("pending-op-succeeds pending={:?} fault={:?}", pd, flt), format!("{what}: the operation in progress returned Ok although its {scope_name} stopped; {}", all())));
     }
@@ -498,7 +517,9 @@ fn judge_b(pd: Pending, flt: Flt, o: &BObs, panics: &[String]) -> Vec<(String, S
             let mine = match pd {
                 // (the future of a batchable send is detached from the handle: it only has to fail; the
                 // handle itself learns why through its next call)
-                Pending::SendWaitingCredit | Pending::SendAwaitingOutcome => on_sender,
+                // (BatchableGrantedWithFault: the call itself was waiting on the handle; whether the error came from the call
+                // or from the outcome future it returned is not told apart - the permissive reading)
+                Pending::SendWaitingCredit | Pending::SendAwaitingOutcome | Pending::BatchableGrantedWithFault => on_sender,
                 Pending::RecvWaiting => !on_sender,
                 _ => false,
             };
@@ -1653,9 +1674,17 @@ pub fn run(ctx: &Ctx) -> Outcome {
     let mut d_complete = true;
     let mut d_distinct = 0usize;
     for (i, (pd, flt)) in casesb.iter().enumerate() {
-        if ctx.quick() && (is_teardown(*pd) || i % 2 == 1) {
+        // (debug knob: C14_ONLY_PENDING=<kind> explores only that pending kind, with two deviations)
+        let only = std::env::var("C14_ONLY_PENDING").ok();
+        if let Some(o) = &only {
+            if &format!("{:?}", pd) != o {
+                continue;
+            }
+        } else if ctx.quick() && (is_teardown(*pd) || i % 2 == 1) && *pd != Pending::BatchableGrantedWithFault {
+            // (the grant-with-fault kind is about an interleaving: all its faults are explored in the quick tier too)
             continue;
         }
+        let bounds = if only.is_some() { Bounds::new(2) } else { bounds.clone() };
         let (pd, flt) = (*pd, *flt);
         let scen: Scenario<BObs> = Arc::new(move || Box::pin(scenario_b(pd, flt)));
         let fails = std::sync::Mutex::new(vec![]);
